@@ -548,16 +548,27 @@ func (c *UDPConn) send(b []byte, dst *net.UDPAddr) (int, error) {
 	l := f.link(src.IP.String(), dst.IP.String())
 	var seq0 uint64
 	var t0 time.Duration
+	var lateReturn time.Duration // the datagram leaves at once, the call returns this much later
 	if l.SlowWritePermille > 0 && l.SlowWriteMax > 0 && f.s.CurrentID() >= 0 && f.s.Dec.Chance("net.slowwrite", l.SlowWritePermille) {
 		d := time.Duration(1+f.s.Dec.Choose("net.slowwriteamt", 16)) * l.SlowWriteMax / 16
 		f.fired("slow-write")
 		if l.SlowWriteSlack {
 			f.s.AddSlack(d)
 		}
-		// the call begins now, the datagram leaves (or the call fails) when the stall is over
-		r0 := f.rec(Rec{Kind: "wstart", Src: src.String(), Dst: dst.String(), Data: data, Sock: c.Label})
-		seq0, t0 = r0.Seq, r0.T
-		f.s.SleepFor(d)
+		if l.SlowWriteSlack && f.s.Dec.Choose("net.slowwritewhen", 2) == 1 {
+			// the other half of the stalls: the kernel has taken the datagram, the caller is kept
+			// waiting (descheduled on its way back) - an answer can overtake the return
+			lateReturn = d
+			f.fired("slow-write-return")
+		} else {
+			// the call begins now, the datagram leaves (or the call fails) when the stall is over
+			r0 := f.rec(Rec{Kind: "wstart", Src: src.String(), Dst: dst.String(), Data: data, Sock: c.Label})
+			seq0, t0 = r0.Seq, r0.T
+			f.s.SleepFor(d)
+		}
+	}
+	if lateReturn > 0 {
+		defer func() { f.s.SleepFor(lateReturn) }()
 	}
 	if l.WriteErrPermille > 0 && f.s.Dec.Chance("net.werr", l.WriteErrPermille) {
 		f.fired("write-error")
@@ -825,6 +836,9 @@ type TCPConn struct {
 	closed   bool
 	readers  []*simrt.Task
 	rdl      time.Duration // read deadline in simulated time (0 = none)
+	wdl      time.Duration // write deadline in simulated time (0 = none)
+	SndBuf   int           // >0: octets this side may have outstanding (in flight or unread at the peer); a Write beyond that blocks
+	writers  []*simrt.Task
 	lastArr  time.Duration // arrival time of the last scheduled segment towards the peer (keeps order)
 	inFlight [][]byte      // segments (nil = FIN) on their way to the peer, in stream order
 	Lib      bool
@@ -876,7 +890,10 @@ func (c *TCPConn) SetLinger(int) error                          { return nil }
 func (c *TCPConn) SetKeepAlivePeriod(time.Duration) error       { return nil }
 func (c *TCPConn) SetKeepAliveConfig(net.KeepAliveConfig) error { return nil }
 func (c *TCPConn) CloseRead() error                             { return nil }
-func (c *TCPConn) SetDeadline(t time.Time) error                { return c.SetReadDeadline(t) }
+func (c *TCPConn) SetDeadline(t time.Time) error {
+	c.SetWriteDeadline(t)
+	return c.SetReadDeadline(t)
+}
 func (c *TCPConn) SetReadDeadline(t time.Time) error {
 	c.f.mu.Lock()
 	c.rdl = deadlineOf(t)
@@ -884,9 +901,26 @@ func (c *TCPConn) SetReadDeadline(t time.Time) error {
 	c.f.mu.Unlock()
 	return nil
 }
-func (c *TCPConn) SetWriteDeadline(time.Time) error { return nil }
-func (c *TCPConn) SetNoDelay(bool) error            { return nil }
-func (c *TCPConn) SetKeepAlive(bool) error          { return nil }
+
+// SetWriteDeadline matters only on a connection with a send buffer limit (SndBuf): a Write that
+// is blocked because the peer does not read fails with a timeout when the deadline passes - after
+// whatever part of its data had room.
+func (c *TCPConn) SetWriteDeadline(t time.Time) error {
+	c.f.mu.Lock()
+	c.wdl = deadlineOf(t)
+	ws := c.writers
+	c.writers = nil
+	c.f.mu.Unlock()
+	for _, w := range ws {
+		c.f.s.Unblock(w)
+	}
+	return nil
+}
+func (c *TCPConn) SetNoDelay(bool) error   { return nil }
+func (c *TCPConn) SetKeepAlive(bool) error { return nil }
+
+// Peer is the other end of the connection (harness actors use it to shape what the library's end may do).
+func (c *TCPConn) Peer() *TCPConn { return c.peer }
 
 func tcpErr(op string, c *TCPConn, err error) error {
 	return &net.OpError{Op: op, Net: "tcp", Source: c.local, Addr: c.remote, Err: err}
@@ -922,7 +956,14 @@ func (c *TCPConn) Read(b []byte) (int, error) {
 			copy(b, c.rx[:n])
 			data := append([]byte(nil), c.rx[:n]...)
 			c.rx = c.rx[n:]
+			var ws []*simrt.Task
+			if c.peer != nil {
+				ws, c.peer.writers = c.peer.writers, nil // room in the sender's window
+			}
 			f.mu.Unlock()
+			for _, w := range ws {
+				f.s.Unblock(w)
+			}
 			f.rec(Rec{Kind: "tcpread", Sock: c.Label, Data: data})
 			return n, nil
 		}
@@ -983,6 +1024,9 @@ func (c *TCPConn) Write(b []byte) (int, error) {
 	peer := c.peer
 	f.mu.Unlock()
 	data := append([]byte(nil), b...)
+	if c.SndBuf > 0 {
+		return c.writeLimited(data)
+	}
 	f.rec(Rec{Kind: "tcpwrite", Sock: c.Label, Src: c.local.String(), Dst: c.remote.String(), Data: data})
 	sizes := []int{len(data)}
 	if c.Cutter != nil {
@@ -1014,6 +1058,80 @@ func (c *TCPConn) Write(b []byte) (int, error) {
 		f.s.At(arr-now, "tcpseg>"+peer.Label, func() { c.arriveNext() })
 	}
 	return len(b), nil
+}
+
+// writeLimited is Write on a connection with a send buffer limit: data goes out as room becomes
+// available (the peer reading makes room); when the write deadline passes first, the call returns
+// what it had written so far and a timeout error - a partial write, as a kernel does it.
+func (c *TCPConn) writeLimited(data []byte) (int, error) {
+	f := c.f
+	peer := c.peer
+	t := f.s.Me()
+	l := f.link(c.local.IP.String(), c.remote.IP.String())
+	written := 0
+	finish := func(err error) (int, error) {
+		f.rec(Rec{Kind: "tcpwrite", Sock: c.Label, Src: c.local.String(), Dst: c.remote.String(), Data: data[:written]})
+		if err != nil {
+			return written, tcpErr("write", c, err)
+		}
+		return written, nil
+	}
+	for written < len(data) {
+		f.mu.Lock()
+		if c.closed {
+			f.mu.Unlock()
+			return finish(errClosed)
+		}
+		out := len(peer.rx)
+		for _, seg := range c.inFlight {
+			out += len(seg)
+		}
+		room := c.SndBuf - out
+		if room > 0 {
+			n := len(data) - written
+			if n > room {
+				n = room
+			}
+			seg := data[written : written+n]
+			written += n
+			d := f.delay(l)
+			now := f.s.Now()
+			arr := now + d
+			if arr < c.lastArr {
+				arr = c.lastArr
+			}
+			c.lastArr = arr
+			c.inFlight = append(c.inFlight, seg)
+			f.mu.Unlock()
+			f.s.At(arr-now, "tcpseg>"+peer.Label, func() { c.arriveNext() })
+			continue
+		}
+		if t == nil {
+			f.mu.Unlock()
+			return finish(errClosed)
+		}
+		if c.wdl > 0 {
+			if f.s.Now() >= c.wdl {
+				f.mu.Unlock()
+				f.fired("tcp-write-timeout")
+				return finish(timeoutError{})
+			}
+			f.s.At(c.wdl-f.s.Now(), "write-deadline "+c.Label, func() {
+				f.mu.Lock()
+				ws := c.writers
+				c.writers = nil
+				f.mu.Unlock()
+				for _, w := range ws {
+					f.s.Unblock(w)
+				}
+			})
+		}
+		f.fired("tcp-write-blocked")
+		c.writers = append(c.writers, t)
+		f.mu.Unlock()
+		f.s.Block(t, "tcpwrite")
+	}
+	return finish(nil)
 }
 
 // arriveNext delivers the oldest segment in flight to the peer. Arrival events of one direction
